@@ -115,6 +115,7 @@ pub fn run(rep: &'static Report) {
         ("key", std::sync::Arc::new(Corpus::key_mode(seed))),
         ("tiny-cs2", std::sync::Arc::new(Corpus::tiny(seed, &[], 2))),
         ("tiny-magic-cs3", std::sync::Arc::new(Corpus::tiny(seed, &r::PASS_MAGIC, 3))),
+        ("tinyfull-cs2", std::sync::Arc::new(Corpus::tiny_full(seed, &[], 2))),
     ];
     for (cn, c) in &corpora {
         for (name, x) in tampered(c) {
@@ -158,6 +159,8 @@ pub fn replay(rep: &'static Report, case: &Value) {
         let seed = rep.seed;
         let corpus = if label.contains("env-key") {
             Corpus::key_mode(seed)
+        } else if label.contains("tinyfull") {
+            Corpus::tiny_full(seed, &[], 2)
         } else if label.contains("tiny-magic") {
             Corpus::tiny(seed, &r::PASS_MAGIC, 3)
         } else {
